@@ -12,7 +12,7 @@ NA = {
 }
 TEXT = {
  'C01': ("proof", "Panic-freedom and termination are PROVED (Verus, unbounded) for the engine every rule and the plain-English front-end run on: all Span methods, 12 sub-lexers (incl. the white-space, hostname and e-mail lexers through desugarings R7/R10/R11) + dispatcher + tiling loop, the URL scanner, VecExt::remove_indices (R9), Document::match_quotes, the line-based comment parsers (Unit / Go / JsDoc / JavaDoc::parse, parse_line), GitCommitParser, HtmlParser, LiterateHaskellMasker::create_mask, the Pattern trait contract (matches <= len) for 13 impls, run_on_chunk, find_all_matches, Wagner-Fischer rows, four condensing passes, Mask::push_allowed / merge_whitespace_sep, and parsers::Mask<M,P>::parse (the composition behind every masked front-end). The white-space lexers and the JSDoc inline-tag scanner are additionally run through bounded Kani harnesses; Document::parse, Markdown, Typst, Literate Haskell and the comment front-ends by bounded runtime contract checks (all labelled bounded, not counted as proved). Rule bodies and external-parser front-ends are otherwise unverified.", "§3 C01"),
- 'C02': ("proof", "PlainEnglish::parse (real body) is PROVED to return tokens that tile the text exactly (in bounds, ordered, disjoint, gap-free, non-empty) for all inputs, given the sub-lexer contracts (13 proved; assumed: lex_number, lex_hex_number); lexical shape proved for spaces / tabs / newlines (only that character), decades, quotes, punctuation, regexish, catch-all; Document::match_quotes PROVED to leave every quote pointing at another existing quote that points back; number-suffix letters proved for slices of every length; condense_spaces / condense_newlines / condense_dotted_initialisms / condense_number_suffixes are PROVED to preserve the tiling, VecExt::remove_indices (the deletion helper they use) PROVED to delete exactly the listed positions; parsers::Mask<M,P>::parse is PROVED to return in-bounds, ordered, non-overlapping tokens for the whole file given the Masker and inner-Parser trait contracts; Space/Newline shape also Kani-bounded; the remaining passes and Markdown token order bounded (runtime contract checks). Other front-ends unverified.", "§3 C02"),
+ 'C02': ("proof", "PlainEnglish::parse (real body) is PROVED to return tokens that tile the text exactly (in bounds, ordered, disjoint, gap-free, non-empty) for all inputs, given the sub-lexer contracts (14 proved; assumed: lex_number); lexical shape proved for spaces / tabs / newlines (only that character), decades, quotes, punctuation, regexish, catch-all; Document::match_quotes PROVED to leave every quote pointing at another existing quote that points back; number-suffix letters proved for slices of every length; condense_spaces / condense_newlines / condense_dotted_initialisms / condense_number_suffixes are PROVED to preserve the tiling, VecExt::remove_indices (the deletion helper they use) PROVED to delete exactly the listed positions; parsers::Mask<M,P>::parse is PROVED to return in-bounds, ordered, non-overlapping tokens for the whole file given the Masker and inner-Parser trait contracts; Space/Newline shape also Kani-bounded; the remaining passes and Markdown token order bounded (runtime contract checks). Other front-ends unverified.", "§3 C02"),
  'C03': ("proof", "Suggestion::apply (the real body, extracted mechanically) is PROVED equal to the mathematical splice for all (text, span, suggestion) with span inside the text; locality lemmas restate the property over that spec; run_on_chunk is proved to hand every rule a non-empty in-bounds sub-slice. LintGroup::lint (chunk cache) is checked by a bounded runtime contract check only. That every rule's span is inside the text is NOT proved.", "§3 C03"),
  'C08': ("model_checking", "PROVED (Verus, unit pos_conv, desugarings R12/R13): index_to_position and span_to_range return exactly the reference LSP position (LF count, UTF-16 units since the last LF) for every text shorter than 2^31 characters and every in-range index; positions are strictly increasing in the index, so a non-empty span gives a non-empty ordered range; position_to_index / range_to_span are PROVED to invert them for every index on an LF-terminated line or in a text without LF (the final line of a text with LF is the known finding D4). BOUNDED model checking (Kani/CBMC) in addition: index_to_position equals an independent executable reference and the position/span round trips hold for every text of length <= 3 (quick) / <= 5 (thorough) over an 8-symbol alphabet covering LF, CR, 1- and 2-unit UTF-16 characters, a combining mark, a zero-width character and a character whose low byte is 0x0A. Diagnostics, code-action lookup and TextEdit construction are checked by a bounded runtime contract check on 19 texts. The final-line defect D4 is a known finding. Not a proof.", "§3 C08"),
  'C13': ("proof", "remove_overlaps (real body, R1-desugared) is PROVED for all inputs with well-formed spans: result is a sub-list of a permutation of the input, pairwise non-overlapping, every dropped lint starts inside a kept one, non-empty input gives non-empty output. VecExt::remove_indices (real body, R9-desugared Vec::retain) is PROVED to delete exactly the listed positions. Modulo the std sort specification and the documented behaviour of Vec::retain.", "§3 C13"),
@@ -30,7 +30,7 @@ TEXT.update({
  'C19': ("exploration", "BOUNDED runtime check of the contract read(write(a) ++ write(b)) == a ++ b of the statistics log (serde_json + BufRead::lines are external; nothing proved): every captured text of <= 3 of 16 hostile fragments, every kind of context token and LintKind, configuration records, all batch pairs from 61 batches; summarize counts every lint record once.", "§3 C19"),
 })
 NOTE = {
- 'C01': "trusted: Verus/Z3/vstd, Kani/CBMC, std specs listed in contracts/trusted.py, desugarings R1-R19; assumed: found_ok of lex_number / lex_hex_number (checked by no verifier), trait contract for the 12 Pattern impls not extracted, stub iterators for paste!-generated adapters",
+ 'C01': "trusted: Verus/Z3/vstd, Kani/CBMC, std specs listed in contracts/trusted.py, desugarings R1-R20; assumed: found_ok of lex_number (checked by no verifier), trait contract for the 12 Pattern impls not extracted, stub iterators for paste!-generated adapters",
  'C02': "trusted as C01; assumed: sub-lexer contracts as above; condense_indices (peekable body) bounded-rac only; pattern-based condensing passes not under contract",
  'C03': "trusted: Verus/Z3/vstd, Vec::extend spec (assume_specification), desugaring R1; unverified: all rule bodies producing spans",
  'C08': "proved part: texts < 2^31 chars, trusted char::len_utf16 / Option::copied specs, desugarings R12/R13; bounded part: text length <= 3/5, 8-symbol alphabet; 64-bit target; code-action construction not covered",
